@@ -1,8 +1,14 @@
 #!/bin/bash
-# Runs every seeded change under /verif/seeded/<PROP>-<k>/patch.diff against the check of
-# its property and prints caught / MISSED. /repo must be clean. usage: run_seeds.sh [PROP ...]
+# Runs every seeded change under /verif/seeded/<PROP>-<k>/patch.diff against the check of its
+# property and prints caught / MISSED. Works on a scratch worktree of /repo's HEAD (created
+# under /var/tmp and removed at the end), so /repo itself is not touched.
+#   usage: run_seeds.sh [PROP ...]
 cd /verif
 want="$*"
+wt=$(mktemp -d /var/tmp/verif-seedrepo.XXXXXX); rmdir "$wt"
+git -C /repo worktree add --detach "$wt" HEAD >/dev/null 2>&1 || { echo "run_seeds: cannot create worktree"; exit 2; }
+trap 'git -C /repo worktree remove --force "$wt" >/dev/null 2>&1; git -C /repo worktree prune' EXIT
+export VERIF_REPO="$wt"
 for d in seeded/*/; do
   id=$(basename "$d"); prop=${id%%-*}
   if [ -n "$want" ] && ! echo " $want " | grep -q " $prop "; then continue; fi
